@@ -333,7 +333,7 @@ class SemantivaOrchestrator(ABC):
                         )
                         trace_driver.on_node_event(ser)
 
-                except Exception as exc:
+                except BaseException as exc:
                     if trace_driver is not None:
                         post_ctx_view = self._context_snapshot(context)
                         context_delta = self._ensure_context_delta(
@@ -397,7 +397,9 @@ class SemantivaOrchestrator(ABC):
 
             if trace_driver is not None:
                 trace_driver.on_pipeline_end(run_token, {"status": "ok"})
-        except Exception as exc:
+        except BaseException as exc:
+            # BaseException: a KeyboardInterrupt-class abort must close the
+            # pipeline_start / pipeline_end bracket too.
             if trace_driver is not None:
                 trace_driver.on_pipeline_end(
                     run_token, {"status": "error", "error": str(exc)}
